@@ -33,7 +33,7 @@ func init() {
 			"(R8.2/R8.3, sibling rules for definition and offered) the CRD delete needs the CRD to be ours, an empty instance list and an acknowledged engine.Stop; every Stop needs 'not ours' or 'no instances'; the XRD finalizer is dropped only when the CRD is not ours and after Stop; " +
 			"(R8.4) a package revision leaves the lock before it is finalized, deactivation removes it from the lock before releasing objects; " +
 			"(R8.5) a composed Usage is never finalized on the edge where its using resource was read successfully; " +
-			"(R8.6) ControllerEngine.Stop returns nil for a running controller only after stopping every source, cancelling and forgetting the controller, and StoppableSource.Stop forgets its registration only after RemoveEventHandler succeeded. (R8.7/R8.8) the XR is written only after a successful Update of the claim that carries its reference (the deletion branch finds the XR through that reference).",
+			"(R8.6) ControllerEngine.Stop returns nil for a running controller only after stopping every source, cancelling and forgetting the controller, and StoppableSource.Stop forgets its registration only after RemoveEventHandler succeeded. (R8.7/R8.8) the XR is written only after a successful Update of the claim that carries its reference (the deletion branch finds the XR through that reference). (R8.9) the definition and the offered controller hold distinct finalizers on the XRD.",
 		NotDecided: []string{
 			"joint ordering across controllers and Kubernetes garbage collection",
 			"third-party finalizer removal",
